@@ -100,6 +100,24 @@ def exc_name(e):
     return type(e).__name__
 
 
+def brief(out):
+    """class and message only (no target-spec trace): for re-entry through Spec.glom(scope=S), which by
+    design evaluates inside the running scope and does not build a trace of its own"""
+    if 'err' not in out:
+        return out
+    cls, text = out['err']
+    last = text.splitlines()[-1] if text else ''
+    return {'err': [cls, re.sub(r'^[\w.()]+: ', '', last)]}
+
+
+def has_specglom(sj):
+    if isinstance(sj, list):
+        return bool(sj) and sj[0] == 'specglom' or any(has_specglom(x) for x in sj)
+    if isinstance(sj, dict):
+        return any(has_specglom(v) for v in sj.values())
+    return False
+
+
 def outcome_of(fn):
     try:
         r = fn()
@@ -324,6 +342,17 @@ def nested_ids(sj, acc):
     return acc
 
 
+def nested_kinds(sj, acc):
+    if isinstance(sj, list):
+        if sj and sj[0] in ('nested', 'specglom'):
+            acc.append((sj[1], sj[0]))
+            nested_kinds(sj[2]['spec'], acc)
+        else:
+            for x in sj:
+                nested_kinds(x, acc)
+    return acc
+
+
 # ----------------------------------------------------------------------------- instrumentation (alone run only)
 
 class Logged:
@@ -540,10 +569,23 @@ def run_nested(case, out, threads_payload, alone_ctxs):
     # (b) each inner call alone at top level
     alone_inner = {}
     stub_values = {}
+    kinds = dict(nested_kinds(outer['spec'], []))
     for nid, call in inner:
         if 'target' not in call:
             continue
         log, o, ctx = run_alone(call, 0)
+        if kinds.get(nid) == 'specglom':
+            # re-entry through Spec(inner).glom(target, scope=S): "alone" is the same re-entry made
+            # from a trivial outer call (it evaluates inside the scope it is given; it is not a
+            # glom() call of its own: no trace of its own, exceptions are not wrapped)
+            c2 = Ctx(0)
+            ns = NestedS(c2, nid, call)
+            outcome_of(lambda: glom.glom(None, glom.Call(ns, args=(glom.T,), kwargs={'scope': glom.S})))
+            o2, exc, val = c2.inner[nid]
+            alone_inner[nid] = (o2, exc)
+            stub_values[nid] = val
+            payload.append({'events': log, 'alone': o2})
+            continue
         target = dec(call['target'])
         spec = build(call['spec'], Ctx(0))
         holder = {}
